@@ -16,10 +16,10 @@ from fractions import Fraction
 from . import common, lib_scheme as S, lib_estimate as E
 
 SET = 'thermochem'
-OBLIGATIONS_C04 = ['PIPE_wsum_depends_on_counts_only', 'PIPE_value_depends_on_counts_only', 'PIPE_outcome_depends_on_counts_only',
+OBLIGATIONS_C04 = ['PIPE_driver_computes_pipeline', 'PIPE_wsum_depends_on_counts_only', 'PIPE_value_depends_on_counts_only', 'PIPE_outcome_depends_on_counts_only',
                    'PIPE_mixture_additive', 'PIPE_mixture_failure', 'PIPE_mixture_estimate_iff', 'PIPE_mixture_as_numbered_by_rdkit',
                    'PIPE_mixture_quadratic', 'PIPE_mixture_quadratic_additive_full_fails', 'PIPE_dimensional_sum', 'PIPE_dimensional']
-OBLIGATIONS_C03 = ['PIPE_relabel_invariant', 'PIPE_spelling_independent', 'PIPE_spelling_lookup', 'PIPE_spelling_group_order',
+OBLIGATIONS_C03 = ['PIPE_driver_computes_pipeline', 'PIPE_relabel_invariant', 'PIPE_spelling_independent', 'PIPE_spelling_lookup', 'PIPE_spelling_group_order',
                    'PIPE_group_keys_canonical', 'PIPE_spelling_raw_string_partial', 'PIPE_spelling_raw_string_full_fails',
                    'PIPE_dimensional_same', 'PIPE_dimensional_relabel']
 FLAGS = (None, True)            # S/R and G/RT plain, and relative to the elements
@@ -123,21 +123,23 @@ def lib_json(info, T):
     return {'entries': entries, 'uq': uq, 'name': None}
 
 
-def request(info, T, graphs, flags=FLAGS):
+def request(info, Ts, graphs, flags=FLAGS):
     GroupLibrary = E._imports()[0]
-    return {'op': 'pipe.estimate_batch', 'scheme': S.scheme_json(info.lib.scheme), 'lib': lib_json(info, T),
-            'registered': sorted(GroupLibrary._property_set_estimator_types), 'set': SET, 'T': common.jrat(E.exact(T)),
+    return {'op': 'pipe.estimate_batch', 'scheme': S.scheme_json(info.lib.scheme),
+            'libs': [{'T': common.jrat(E.exact(T)), 'lib': lib_json(info, T)} for T in Ts],
+            'registered': sorted(GroupLibrary._property_set_estimator_types), 'set': SET,
             'flags': [E.flag_json(f) for f in flags], 'mols': graphs}
 
 
-def compare_one(ctx, info, where, impl, T, rep):
-    """one molecule, one temperature: implementation outcome vs `PGA.Pipeline.pipeline`"""
+def compare_one(ctx, info, where, impl, T, mol_rep, rep):
+    """one molecule, one temperature: implementation outcome vs `PGA.Pipeline.pipeline` (`mol_rep`: the per-molecule part of the
+    reply — counts and guards; `rep`: the outcome at `T`)"""
     def bad(what, i, m):
         ctx.disagree('corr:pipe.estimate', dict(where, T=T, part=what), i, m)
         return False
-    if not (rep['wf'] and rep['bonded']):
+    if not (mol_rep['wf'] and mol_rep['bonded']):
         raise common.MachineryError('A-graph: the model finds the extracted graph ill-formed for %r' % (where,))
-    if rep['maxraw'] >= CAP:
+    if mol_rep['maxraw'] >= CAP:
         ctx.count('pipe_cap_reached')
         return True
     ic = outcome_class(impl)
@@ -145,7 +147,7 @@ def compare_one(ctx, info, where, impl, T, rep):
         ctx.count('pipe_model_patternMatch')
         return ic == 'PatternMatchError' or bad('outcome', ic, 'PatternMatchError')
     if 'counts' in impl:
-        model_counts = {k: common.unjrat(v) for k, v in rep['counts']}
+        model_counts = {k: common.unjrat(v) for k, v in mol_rep['counts']}
         if not S.same_counts(impl['counts'], model_counts):
             return bad('counts', impl['counts'], {k: float(v) for k, v in model_counts.items()})
     if 'esterr' in rep:
@@ -213,6 +215,7 @@ class PipeTie(object):
         self.cases = collections.OrderedDict()      # name -> [info, Ts, [(graph, where, impl)]]
         self.seen = set()
         self.memo = {}
+        self.t_impl = 0.0
 
     def temps(self, name):
         ent = self.cases.get(name)
@@ -250,7 +253,10 @@ class PipeTie(object):
         info, Ts, _ = self.open(name, lib)
         key = (name, x)
         if key not in self.memo:
+            import time
+            t0 = time.time()
             self.memo[key] = impl_pipeline(info, x, Ts)
+            self.t_impl += time.time() - t0
         return self.memo[key]
 
     def run(self):
@@ -262,19 +268,24 @@ class PipeTie(object):
         for name, info, Ts, lst in todo:
             if not lst:
                 continue
-            for T in Ts:
-                reqs.append(request(info, T, [c[0] for c in lst]))
-                meta.append((info, T, lst))
+            reqs.append(request(info, Ts, [c[0] for c in lst]))
+            meta.append((info, Ts, lst))
+        import time
+        t0 = time.time()
         replies = ctx.model(reqs)
+        tm = ctx.extra.setdefault('coverage', {}).setdefault('pipeline_seconds', {'model': 0.0, 'implementation': 0.0})
+        tm['model'] = round(tm['model'] + time.time() - t0, 2)
+        tm['implementation'] = round(self.t_impl, 2)
         if replies is None:
             return
-        for (info, T, lst), rep in zip(meta, replies):
+        for (info, Ts, lst), rep in zip(meta, replies):
             if 'loaderr' in rep:
                 ctx.disagree('corr:pipe.estimate', lst[0][1], 'scheme loaded', rep)
                 continue
             for (g, where, impl), r in zip(lst, rep['res']):
-                ctx.count('corr_pipe.estimate')
-                compare_one(ctx, info, where, impl, T, r)
+                for T, at in zip(Ts, r['at']):
+                    ctx.count('corr_pipe.estimate')
+                    compare_one(ctx, info, where, impl, T, r, at)
 
 
 # ----------------------------------------------------------------------------- property-level oracles
@@ -414,6 +425,57 @@ def same_outcome(ctx, info, inp, a, b, Ts, what):
     return good
 
 
+def sum_oracle(ctx, name, info, smi, out, Ts):
+    """C01 ∘ C02 on the real code: the estimate the pipeline returns is the count-weighted sum over exactly the descriptors
+    `GetDescriptors` returned — one term per descriptor, H/RT, Cp/R, S/R = Σ n·x_d(T) (first failing descriptor's failure
+    otherwise), validity range = intersection of the descriptors' ranges."""
+    if 'ok' not in out:
+        return True
+    inp = {'scheme': name, 'smiles': smi, 'pipeline': 'sum', 'Ts': list(Ts)}
+    counts = out['counts']
+    good = True
+    if out['n'] != len(counts):
+        ctx.violation('pipeline: the estimate does not hold one term per descriptor of the decomposition', inp, len(counts), out['n'])
+        good = False
+    rs = [info.corr[nm].get_range() for nm in counts if nm in info.corr and info.corr[nm].get_range() is not None]
+    want = (max(float(r[0]) for r in rs), min(float(r[1]) for r in rs)) if rs else None
+    got = None if out['range'] is None else tuple(float(v) for v in out['range'])
+    if got != want:
+        ctx.violation('pipeline: the validity range is not the intersection of the descriptors\' ranges', inp, want, got)
+        good = False
+    for T in Ts:
+        sc = scales(info, counts, T)
+        for p in ('cp', 'h', 's'):
+            tot, err = Fraction(0), None
+            for nm in out['order']:
+                o, v = info.group_val(nm, p, T)
+                if 'err' in o:
+                    err = o['err']
+                    break
+                tot += E.exact(counts[nm]) * common.unjrat(o['ok'])
+            got = out['ok'][T][p] if p != 's' else out['ok'][T][p][0]
+            if err is not None or got[0] == 'err':
+                if (err is None) != (got[0] != 'err'):
+                    ctx.violation('pipeline: a getter fails although every descriptor has the datum (or the reverse)',
+                                  dict(inp, T=T, getter=p), err, list(got))
+                    good = False
+                continue
+            if not common.close(got[1], tot, sc[p]):
+                ctx.violation('pipeline: %s is not the count-weighted sum over the descriptors of the decomposition' % p,
+                              dict(inp, T=T, getter=p), float(tot), got[1])
+                good = False
+            ctx.count('pipe_sum_checks')
+    return good
+
+
+def zero_padding(rng, info, d, k=2):
+    """descriptors of the library (with data, inside the uncertainty basis if there is one) that `d` does not mention"""
+    pool = [nm for nm in info.names if nm in info.corr and nm not in {str(x) for x in d}
+            and (info.uq is None or nm in info.uq['basis'])]
+    rng.shuffle(pool)
+    return pool[:k]
+
+
 def equiv_oracle(ctx, name, info, base_smi, base, other_smi, other, Ts):
     """PIPE_relabel_invariant on the real code: two spellings (atom orders) of one molecule"""
     ctx.count('pipe_equiv_%s' % outcome_class(base))
@@ -448,6 +510,13 @@ def respell_mapping(rng, info, mode):
         items = list(d.items())
         if mode == 'reversed':
             return dict(reversed(items))
+        if mode == 'zero-padded':
+            out = dict(items)
+            pad = zero_padding(rng, info, d)
+            for j, nm in enumerate(pad):
+                out[nm] = 0 if j % 2 == 0 else 0.0
+            f.padded = pad
+            return out
         out = {}
         for k, v in items:
             obj = info.keyobj.get(str(k))
@@ -473,6 +542,137 @@ def respell_oracle(ctx, name, info, smi, base, Ts, seed):
         ctx.count('pipe_respell_' + mode)
         good = same_outcome(ctx, info, {'scheme': name, 'smiles': smi, 'pipeline': 'respell', 'mode': mode, 'seed': seed, 'Ts': list(Ts)},
                             base, other, Ts, 'pipeline with the mapping re-keyed (%s)' % mode) and good
+    # descriptors listed with the count 0: no value may move (PIPE_value_depends_on_counts_only), but they are terms of the
+    # estimate — one more term each, their ranges intersected, their data required (C01_zero_count)
+    if 'ok' in base:
+        f = respell_mapping(random.Random(seed), info, 'zero-padded')
+        other = impl_pipeline(info, smi, Ts, mapping=f)
+        pad = getattr(f, 'padded', [])
+        inp = {'scheme': name, 'smiles': smi, 'pipeline': 'respell', 'mode': 'zero-padded', 'seed': seed, 'Ts': list(Ts), 'padded': pad}
+        ctx.count('pipe_respell_zero_padded')
+        oc = outcome_class(other)
+        rs = [r for r in [base['range']] + [info.corr[nm].get_range() for nm in pad] if r is not None]
+        want = (max(float(r[0]) for r in rs), min(float(r[1]) for r in rs)) if rs else None
+        if want is not None and want[0] > want[1]:
+            if oc != 'AssertionError':
+                ctx.violation('pipeline with zero-count descriptors added: the common range is empty but no AssertionError', inp, 'AssertionError', oc)
+                good = False
+        elif oc != 'estimate':
+            ctx.violation('pipeline with zero-count descriptors added: no estimate', inp, 'estimate', oc)
+            good = False
+        else:
+            got = None if other['range'] is None else tuple(float(v) for v in other['range'])
+            if other['n'] != base['n'] + len(pad) or got != want:
+                ctx.violation('pipeline with zero-count descriptors added: they are not terms of the estimate (number of terms / range)',
+                              inp, [base['n'] + len(pad), want], [other['n'], got])
+                good = False
+            for T in Ts:
+                sc = scales(info, base['counts'], T)
+                for p in ('cp', 'h'):
+                    va, vb = base['ok'][T][p], other['ok'][T][p]
+                    if va[0] == 'ok' and vb[0] == 'ok' and not common.close(vb[1], va[1], sc[p]):
+                        ctx.violation('pipeline with zero-count descriptors added: a value moved', dict(inp, T=T, getter=p), va[1], vb[1])
+                        good = False
+                    if va[0] == 'ok' and vb[0] == 'err' and all('ok' in info.group_val(nm, p, T)[0] for nm in pad):
+                        ctx.violation('pipeline with zero-count descriptors added: a getter fails although the added descriptors have the datum',
+                                      dict(inp, T=T, getter=p), list(va), list(vb))
+                        good = False
+    return good
+
+
+# ----------------------------------------------------------------------------- the spelling of group names in a library file
+def library_files(name):
+    """(path relative to the library directory, parsed YAML) of every file of a shipped library that has a `groups:` section"""
+    import yaml
+    from pgradd.GroupAdd.DataDir import get_data_dir
+    root = os.path.join(get_data_dir(), name)
+    out, todo, seen = [], ['library.yaml'], set()
+    while todo:
+        rel = todo.pop(0)
+        if rel in seen:
+            continue
+        seen.add(rel)
+        y = yaml.safe_load(open(os.path.join(root, rel))) or {}
+        out.append((rel, y))
+        for inc in y.get('include') or []:
+            todo.append(os.path.normpath(os.path.join(os.path.dirname(rel), inc)))
+    return root, out
+
+
+def entry_lookup_oracle(ctx, name, lib, seed):
+    """PIPE_spelling_lookup on the real code: every entry of a `groups:` section is found under `Group` objects parsed from its
+    own spelling and from other spellings of it, and under its canonical name as a string"""
+    import random
+    _, Group, _, _, _, _ = E._imports()
+    rng = random.Random(seed)
+    root, files = library_files(name)
+    good = True
+    for rel, y in files:
+        for g, sets in (y.get('groups') or {}).items():
+            has = isinstance(sets, dict) and SET in sets
+            obj = Group.parse(lib.scheme, str(g))
+            for how, key in (('Group parsed from the file\'s spelling', obj), ('Group parsed from another spelling', Group.parse(lib.scheme, respell(rng, obj))),
+                             ('canonical name as a string', obj.name)):
+                ctx.count('pipe_entry_lookups')
+                if (SET in lib[key]) != has:
+                    ctx.violation('library entry not found under %s' % how,
+                                  {'scheme': name, 'pipeline': 'entry', 'file': rel, 'entry': str(g), 'key': str(key), 'seed': seed, 'Ts': []},
+                                  has, SET in lib[key])
+                    good = False
+    return good
+
+
+def respelled_library(ctx_scratch, name, seed):
+    """a copy of a shipped library's directory whose `groups:` entries are all written in another spelling; returns the loaded copy"""
+    import random, shutil, yaml
+    GroupLibrary, Group, _, _, _, _ = E._imports()
+    rng = random.Random(seed)
+    root, files = library_files(name)
+    dst = os.path.join(ctx_scratch, 'respelled-%s-%d' % (name, seed))
+    if os.path.exists(dst):
+        shutil.rmtree(dst)
+    shutil.copytree(root, dst)
+    changed = 0
+    for rel, y in files:
+        if not y.get('groups'):
+            continue
+        new = {}
+        for g, v in y['groups'].items():
+            s_ = respell(rng, Group.parse(None, str(g)))
+            changed += s_ != g
+            new[s_] = v
+        y = dict(y, groups=new)
+        with open(os.path.join(dst, rel), 'w') as f:
+            yaml.safe_dump(y, f, default_flow_style=False, sort_keys=False, allow_unicode=True)
+    with warnings.catch_warnings():
+        warnings.simplefilter('ignore')
+        S._install_text_recorder()
+        lib2 = GroupLibrary.Load(os.path.join(dst, 'library.yaml'))
+    return lib2, changed
+
+
+def library_spelling_oracle(ctx, name, lib, seed, smiles, Ts):
+    """PIPE_spelling_independent on the real code: the library loaded from files whose group names are spelled differently has the
+    same keys in the same order and gives the same pipeline outcome on every molecule tried"""
+    try:
+        lib2, changed = respelled_library(ctx.scratch, name, seed)
+    except Exception as e:
+        ctx.violation('a library whose group names are written in other (well-formed) spellings does not load',
+                      {'scheme': name, 'pipeline': 'library-spelling', 'seed': seed, 'smiles': list(smiles), 'Ts': list(Ts)}, 'loads', type(e).__name__)
+        return False
+    ctx.count('pipe_respelled_library_entries_changed', changed)
+    inp = {'scheme': name, 'pipeline': 'library-spelling', 'seed': seed, 'smiles': list(smiles), 'Ts': list(Ts)}
+    k1, k2 = [str(k) for k in lib.contents], [str(k) for k in lib2.contents]
+    if k1 != k2:
+        ctx.violation('a library whose group names are written in other spellings is keyed differently', inp,
+                      [k for k in k1 if k not in k2][:5], [k for k in k2 if k not in k1][:5])
+        return False
+    info1, info2 = info_of(name, lib), E.LibInfo(name + '/respelled', lib2, matlib=None)
+    good = True
+    for smi in smiles:
+        a, b = impl_pipeline(info1, smi, Ts), impl_pipeline(info2, smi, Ts)
+        ctx.count('pipe_respelled_library_cases')
+        good = same_outcome(ctx, info1, dict(inp, smiles=[smi]), a, b, Ts, 'pipeline under a library file with respelled group names') and good
     return good
 
 
@@ -552,6 +752,12 @@ def replay(ctx, inp):
                      impl_pipeline(info, inp['other'], Ts), Ts)
     elif kind == 'respell':
         respell_oracle(ctx, inp['scheme'], info, inp['smiles'], impl_pipeline(info, inp['smiles'], Ts), Ts, inp['seed'])
+    elif kind == 'sum':
+        sum_oracle(ctx, inp['scheme'], info, inp['smiles'], impl_pipeline(info, inp['smiles'], Ts), Ts)
+    elif kind == 'entry':
+        entry_lookup_oracle(ctx, inp['scheme'], lib, inp['seed'])
+    elif kind == 'library-spelling':
+        library_spelling_oracle(ctx, inp['scheme'], lib, inp['seed'], inp['smiles'], Ts)
     else:
         raise common.MachineryError('unknown pipeline replay kind %r' % kind)
     return len(ctx.violations) == before
